@@ -533,3 +533,17 @@ func init() {
 	ctl("connect can fail after starting its handlers", "R-STARTLAST", "connect|handlers started", "client", "ovsdbClient", "connect", kStmt, "o.connected = true", 0, before("if o.rpcClient == nil {\nreturn ErrNotConnected\n}"))
 	ctl("generator logs a formatting failure and reports success", "ERR-NILRET", "Format|tested error", "modelgen", "generator", "Format", kStmt, "return nil, err", 1, to("log.Printf(\"%v\", err)\nreturn buffer.Bytes(), nil"))
 }
+
+func init() {
+	registerControl(&ControlDef{Name: "table list built in a slice taken from a package-level pool", Rule: "G-GLOBAL", Expect: "TableCache).Tables|write to package-level", Edit: func(p *Program) ([]TextEdit, error) {
+		fd, _, err := p.funcDecl("cache", "TableCache", "Tables")
+		if err != nil {
+			return nil, err
+		}
+		decl, err := locate(p, "cache", "TableCache", "Tables", kStmt, "var result []string", 0)
+		if err != nil {
+			return nil, err
+		}
+		return []TextEdit{p.editReplace(decl, "result := tableNames.Get().([]string)\ndefer tableNames.Put(result)"), p.editRange(fd.End(), fd.End(), "\n\nvar tableNames = sync.Pool{New: func() interface{} { return []string(nil) }}\n")}, nil
+	}})
+}
